@@ -62,8 +62,14 @@ func (g *gate) pass(key string, put bool) {
 	g.reqs <- r
 	<-r.grant
 }
-func (g *gate) Get(key string, i interface{}) error { g.pass(key, false); return g.StateStorer.Get(key, i) }
-func (g *gate) Put(key string, i interface{}) error { g.pass(key, true); return g.StateStorer.Put(key, i) }
+func (g *gate) Get(key string, i interface{}) error {
+	g.pass(key, false)
+	return g.StateStorer.Get(key, i)
+}
+func (g *gate) Put(key string, i interface{}) error {
+	g.pass(key, true)
+	return g.StateStorer.Put(key, i)
+}
 
 type jconc struct {
 	Kind  string  `json:"kind"` // "conc"
